@@ -24,7 +24,8 @@
 // chunk is returned together with io.EOF (n > 0 and io.EOF in one call); flag z: every chunk is
 // preceded by one to three reads that return (0, nil).
 //
-// A panic inside the package is recorded as the output PANIC (after the observations made so far).
+// A panic inside the package is recorded as the output PANIC (after the observations made so far);
+// a scanner that never stops returning tokens as RUNAWAY (see runaway).
 package main
 
 import (
@@ -33,6 +34,7 @@ import (
 	"strconv"
 	"strings"
 	"sync"
+	"time"
 
 	"github.com/creachadair/mds/shell"
 	"verif/harness/internal/tr"
@@ -131,12 +133,36 @@ func (h held) String() string {
 	return out + h.post
 }
 
+// runaway reports whether a scanner over src keeps returning tokens beyond any possible number
+// (every token but the last consumes at least one byte).  It is checked before Split, Scanner.Split
+// and Each are let loose on an input, because those would then allocate without end; the case is
+// recorded as RUNAWAY.  A Next that does not return at all within the watchdog is reported the
+// same way.
+func runaway(desc, src string) bool {
+	bad := false
+	if r := tr.Guard(20*time.Second, func() {
+		sc := shell.NewScanner(newFrag(desc, src))
+		for i := 0; i <= len(src)+2; i++ {
+			if !sc.Next() {
+				return
+			}
+		}
+		bad = true
+	}); r == "hang" {
+		return true
+	}
+	return bad
+}
+
 func exec1(in string, partial *[]string) string {
 	// fields are separated by blanks; '_' is accepted too, so that an input can be quoted as one
 	// blank-free word in the FAIL lines of the supporting scripts (bin/incoq-shell, bin/dash-shell)
 	f := strings.FieldsFunc(in, func(r rune) bool { return r == ' ' || r == '_' })
 	switch f[0] {
 	case "S":
+		if runaway("0", tr.UnHex(f[1])) {
+			return "RUNAWAY"
+		}
 		fs, ok := shell.Split(tr.UnHex(f[1]))
 		return tr.B(ok) + " " + tr.HexList(fs)
 	case "Q":
@@ -144,7 +170,11 @@ func exec1(in string, partial *[]string) string {
 	case "J":
 		return tr.Hex(shell.Join(tr.UnHexList(f[1])))
 	case "R":
-		fs, ok := shell.Split(shell.Join(tr.UnHexList(f[1])))
+		j := shell.Join(tr.UnHexList(f[1]))
+		if runaway("0", j) {
+			return "RUNAWAY"
+		}
+		fs, ok := shell.Split(j)
 		return tr.B(ok) + " " + tr.HexList(fs)
 	case "H":
 		ss := tr.UnHexList(f[1])
@@ -163,6 +193,9 @@ func exec1(in string, partial *[]string) string {
 		return tr.HexList(qs) + ";" + tr.HexList(js)
 	case "N":
 		src := tr.UnHex(f[2])
+		if len(f) > 3 && strings.ContainsAny(f[3], "sabc") && runaway(f[1], src) {
+			return "RUNAWAY"
+		}
 		fr := newFrag(f[1], src)
 		sc := shell.NewScanner(fr)
 		var obs []held
@@ -382,6 +415,15 @@ func main() {
 					}
 					g.Emit("H "+tr.HexList(ss), true, "hold-random")
 				}
+				// long arguments: results larger than any small-buffer threshold, still held
+				for i := 0; i < g.Scale(60, 1500); i++ {
+					n := 2 + g.R.Intn(4)
+					ss := make([]string, n)
+					for j := range ss {
+						ss[j] = randString(g.R, metaAlpha, 100+g.R.Intn(g.Scale(3000, 6000)))
+					}
+					g.Emit("H "+tr.HexList(ss), true, "hold-long")
+				}
 				for i := 0; i < g.Scale(20000, 400000); i++ {
 					n := g.R.Intn(5)
 					ss := make([]string, n)
@@ -546,13 +588,45 @@ func main() {
 					}
 					g.Emit("N "+tr.Pick(g.R, bigFrags)+" "+tr.Hex(s)+" nnnsne", true, "over-buffer")
 				}
+				// words separated by runs of one to three separators, longer than the buffer: Rest right
+				// after the first few tokens (most of a refill still buffered), deep inside, and around
+				// the places where a refill happens -- what Rest returns must not depend on how much the
+				// scanner has read ahead
+				for i := 0; i < g.Scale(3, 20); i++ {
+					var sb strings.Builder
+					nw, atRefill := 0, 0
+					for sb.Len() < 6000 {
+						if sb.Len() < 4096 {
+							atRefill = nw // the word that straddles (or ends at) bufio's first refill
+						}
+						sb.WriteString("w" + strconv.Itoa(nw))
+						nw++
+						for k := 1 + g.R.Intn(3); k > 0; k-- {
+							sb.WriteByte(" \t\n "[g.R.Intn(4)])
+						}
+					}
+					s := sb.String()
+					for j, k := range bigFrags {
+						depths := []int{0, 1, 2, 3, 5, 8}
+						if g.Thorough() || j%4 == i%4 {
+							depths = append(depths, atRefill-1, atRefill, atRefill+1, atRefill+2, nw)
+						}
+						for _, depth := range depths {
+							g.Emit("N "+k+" "+tr.Hex(s)+" "+strings.Repeat("n", depth)+"rn", true, "over-buffer-blanks")
+						}
+					}
+				}
 				// single tokens that span several refills, followed by more input; Rest right after
-				for i := 0; i < g.Scale(8, 40); i++ {
-					tok := bigToken(g.R, 4000+g.R.Intn(g.Scale(9000, 14000)))
+				// (the model and the reference build a token by appending at the end of a list, so their
+				// cost is quadratic in the token length: sizes and counts are kept moderate)
+				for i := 0; i < g.Scale(6, 40); i++ {
+					tok := bigToken(g.R, 4200+g.R.Intn(g.Scale(4000, 9000)))
 					s := randString(g.R, classAlpha, 6) + " " + tok + "  " + randString(g.R, classAlpha, 20)
 					g.Emit("S "+tr.Hex(s), true, "big-token")
-					for _, k := range bigFrags {
-						g.Emit("N "+k+" "+tr.Hex(s)+" "+strings.Repeat("n", 1+g.R.Intn(4))+"rn", true, "big-token")
+					for j, k := range bigFrags {
+						if g.Thorough() || j%3 == i%3 {
+							g.Emit("N "+k+" "+tr.Hex(s)+" "+strings.Repeat("n", 1+g.R.Intn(4))+"rn", true, "big-token")
+						}
 					}
 				}
 			}
